@@ -101,7 +101,7 @@ def _binop(op, a, b):
     return UNKNOWN
 
 
-def explore(fn, oracle, init=None, max_states=4000, max_visits=2, stop_at=None):
+def explore(fn, oracle, init=None, max_states=4000, max_visits=2, stop_at=None, by_type=None):
     """Enumerate paths from entry.  oracle(state, bb, term) -> scalar value of the call's destination
     (or UNKNOWN).  Returns list of (State, end) where end = 'return' | 'diverge' | 'cut' | ('stop', bb)."""
     out = []
@@ -191,6 +191,9 @@ def explore(fn, oracle, init=None, max_states=4000, max_visits=2, stop_at=None):
                         else:
                             st.env.pop((dl, oi), None)
                     val = UNKNOWN
+                if val is UNKNOWN and by_type:
+                    # world assumption by type: every value of this type is the world's value (e.g. "the flags are X")
+                    val = by_type.get(fn.local_ty(dl), UNKNOWN)
                 if val is UNKNOWN:
                     st.env.pop(dl, None)
                 else:
@@ -210,6 +213,8 @@ def explore(fn, oracle, init=None, max_states=4000, max_visits=2, stop_at=None):
                 st.calls.append((bb, t))
                 val = oracle(st, bb, t)
                 dl, dprojs = place_parts(t["d"])
+                if val is UNKNOWN and by_type and not dprojs:
+                    val = by_type.get(fn.local_ty(dl), UNKNOWN)
                 if isinstance(val, Alt):
                     if t.get("t") is None:
                         out.append((st, "diverge"))
